@@ -257,3 +257,30 @@ M("C03", "append-rewrites-header-when-given", [(SF, "        if self._hdr is not
 M("C03", "overwrite-opens-append", [(SF, "    if append:\n        # if file doesn't yet exist, this will be changed to 'w+' internally.\n        mode = \"r+\"\n    else:\n        mode = \"w\"\n",
                                     "    if append or (delim is not None and os.path.exists(outfile) and header is None):\n        # if file doesn't yet exist, this will be changed to 'w+' internally.\n        mode = \"r+\"\n    else:\n        mode = \"w\"\n")],
   "a text overwrite without header appends to the existing file instead of replacing it")
+
+# ---- C20
+AL = "esutil/algorithm.py"
+PB = "esutil/pbar.py"
+M("C20", "keyvalue-bottom-value-not-moved", [(AL, "                keys[bottom] = keys[top]  # Then put it at the bottom...\n                data[bottom] = data[top]  # Then put it at the bottom...\n",
+                                            "                keys[bottom] = keys[top]  # Then put it at the bottom...\n                if top - bottom > 1:\n                    data[bottom] = data[top]  # Then put it at the bottom...\n")],
+  "adjacent swaps move the key but not its value")
+M("C20", "partition-ge", [(AL, "            if data[bottom] > pivot:  # Is the bottom out of place?", "            if data[bottom] >= pivot:  # Is the bottom out of place?")],
+  "elements equal to the pivot move to the upper side: still a partition", control=True)
+M("C20", "isplit-extras-last", [(AL, "        [0] + extras * [neach_section+1]\n        + (nchunks-extras) * [neach_section]\n", "        [0] + (nchunks-extras) * [neach_section]\n        + extras * [neach_section+1]\n")],
+  "the larger chunks come last")
+M("C20", "pbar-prefetches-next", [(PB, "    n = 0\n    for obj in iterable:\n        yield obj\n", "    n = 0\n    import itertools as _it\n    _a, _b = _it.tee(iterable)\n    next(_b, None)\n    for obj in _a:\n        next(_b, None)\n        yield obj\n")],
+  "the full meter reads one item ahead of the consumer")
+M("C20", "pmap-as-completed", [(PB, "        res = list(pbar(ex.map(fn, iterable, chunksize=chunksize), **kw))\n",
+                               "        from concurrent.futures import as_completed\n        futs = [ex.submit(fn, x) for x in iterable]\n        res = [f.result() for f in pbar(as_completed(futs), **kw)]\n")],
+  "results are collected in completion order")
+M("C20", "splitarray-drops-single-leftover", [(NU, "    nchunks = var.size // nper\n    if var.size % nper != 0:\n        nchunks += 1\n", "    nchunks = var.size // nper\n    if var.size % nper > 1 or nchunks == 0:\n        nchunks += 1\n")],
+  "a last chunk of exactly one element is dropped")
+M("C20", "sbar-total-caps-items", [(PB, "    for i, obj in enumerate(iterable):\n        yield obj\n        i += 1\n\n        p = int(i / total * 10)\n\n        if p > plast:\n            pnn(p)",
+                                   "    for i, obj in zip(range(1, total + 1), iterable):\n        yield obj\n\n        p = int(i / total * 10)\n\n        if p > plast:\n            pnn(p)")],
+  "simple bar stops after total items")
+M("C20", "format-meter-none-total-raises-again", [(PB, "    if total is not None and n > total:\n", "    if n > total:\n")], "the original defect D29")
+M("C20", "leave-false-skips-last", [(PB, "    if not leave:\n        sp.print_status('')\n        file.write('\\r')\n", "    if not leave:\n        sp.print_status('' if total is None or n <= total else 1)\n        file.write('\\r')\n")],
+  "leave=False with more items than total: status printer is handed an int and raises after the last item")
+M("C20", "quicksort-skips-short-left", [(AL, "        split = partition(data, start, end)  # ... partition the subdata...\n        _quicksort(data, start, split-1)  # ... and sort both halves.\n",
+                                        "        split = partition(data, start, end)  # ... partition the subdata...\n        if split - start != 2 or end - start < 150:\n            _quicksort(data, start, split-1)  # ... and sort both halves.\n")],
+  "in ranges of more than 150 elements a left part of exactly two elements is left unsorted")
